@@ -184,6 +184,33 @@ CHECKS = {
             "(quoted) are read by no equality/hash/size/cost code; (R09d = R14a) the CLI selects each file's loader from "
             "that file's own options. How third-party parsers map the same data is NOT analysed.",
             "DESIGN.md section 4 C09"),
+    "C08": ("construction-site census for mapping nodes, container/identity agreement per node class, absence of "
+            "positional pairing in multiset/keyed edits, guard dominance for list zero-cost matches",
+            "Static analysis: (R08a) DictNode.from_dict sorts the pairs and every other DictNode-family construction goes "
+            "through from_dict (two reviewed exceptions), so the internal order never follows the document's key order; "
+            "(R08b) multisets/mappings store children in an order-insensitive container with container equality and a "
+            "commutative hash, lists store a tuple, pairs sort by (key, value); (R08c) multiset and keyed edits never pair "
+            "the two sides by position, and a list gets a zero-cost match only under tuple equality. Tie-breaking among "
+            "equal-cost assignments inside the solver is NOT decided.",
+            "DESIGN.md section 4 C08"),
+    "C06": ("mark-polarity analysis of all mark contexts (which side's content is printed inside which mark), "
+            "sanitiser/escape dataflow for the JSON formatter, path check that pending runs are flushed",
+            "Static analysis of NECESSARY conditions: (E10) in every mark context of Match/Replace/Remove/Insert.print, the "
+            "string-edit printer and the sequence delimiter printer, removal marks (strike / red) enclose only from-side "
+            "content and insertion marks (under-plus / green) only to-side content; plain-text ~~/++ markers bracket their "
+            "content; a zero-cost match prints unmarked; both pending character runs are flushed before the closing quote; "
+            "(E9) every string character passes escape() = json.dumps(c)[1:-1] on every path and every other leaf is "
+            "json.dumps(node.object) on every path; (R01a/R01d) the scripts the marks are drawn from are complete. That the "
+            "rendered text actually parses back to the two documents is a property of output values and is NOT decided.",
+            "DESIGN.md section 4 C06, section 3 E9/E10"),
+    "C12": ("sanitiser dataflow for the JSON and CSV leaf encoders; static simulation of the formatting protocol restricted "
+            "to each format's own loader classes",
+            "Static analysis of NECESSARY conditions: (E9) JSON and CSV leaf content reaches printer.write only through the "
+            "format's own encoder (json.dumps / csv.writer with only the row terminator stripped) and string characters "
+            "through escape(); (E5-own) for each of the 7 text formats every node class its own loader can produce resolves, "
+            "under that format's default formatter, to a handler inside that formatter's own tree (60 cells), never to a "
+            "foreign format's handler or node.print. The round trip itself over Unicode, numbers and nesting is NOT decided.",
+            "DESIGN.md section 4 C12"),
 }
 
 NOT_YET = "check not built yet in this session (static rules designed in DESIGN.md; will be claimed once the rule runs clean)"
